@@ -550,3 +550,5 @@ def run(ck, F):
     import c02
     ck.run_rule(c02.r02_6)     # sender pays max(len, 1): a receiver that books less leaks one credit per empty frame
     ck.run_rule(c02.r02_1b)
+    import c11
+    ck.run_rule(c11.r11_6)     # every frame taken from the port queue has its credit handed to start_return on every path (also the refusing ones): a dropped UsedCredit is lost for good
